@@ -257,7 +257,20 @@ func (matrix *DenseFloat64Matrix) Tip() {
   matrix.rowMax, matrix.colMax = matrix.colMax, matrix.rowMax
 }
 func (matrix *DenseFloat64Matrix) AsVector() Vector {
-  return DenseFloat64Vector(matrix.values)
+  if matrix.transposed || matrix.rowMax > matrix.rows || matrix.colMax > matrix.cols {
+    // a view does not own a contiguous row-major block: return its
+    // elements (a copy)
+    n, m := matrix.Dims()
+    v := make(DenseFloat64Vector, n*m)
+    for i := 0; i < n; i++ {
+      for j := 0; j < m; j++ {
+        v[i*m + j] = matrix.values[matrix.index(i, j)]
+      }
+    }
+    return v
+  } else {
+    return DenseFloat64Vector(matrix.values)
+  }
 }
 func (matrix *DenseFloat64Matrix) storageLocation() uintptr {
   return uintptr(unsafe.Pointer(&matrix.values[0]))
@@ -349,7 +362,20 @@ func (matrix *DenseFloat64Matrix) IsSymmetric(epsilon float64) bool {
   return true
 }
 func (matrix *DenseFloat64Matrix) AsConstVector() ConstVector {
-  return DenseFloat64Vector(matrix.values)
+  if matrix.transposed || matrix.rowMax > matrix.rows || matrix.colMax > matrix.cols {
+    // a view does not own a contiguous row-major block: return its
+    // elements (a copy)
+    n, m := matrix.Dims()
+    v := make(DenseFloat64Vector, n*m)
+    for i := 0; i < n; i++ {
+      for j := 0; j < m; j++ {
+        v[i*m + j] = matrix.values[matrix.index(i, j)]
+      }
+    }
+    return v
+  } else {
+    return DenseFloat64Vector(matrix.values)
+  }
 }
 /* implement ScalarContainer
  * -------------------------------------------------------------------------- */
